@@ -40,6 +40,10 @@ def ty_str(t):
         return "Enum:%s" % t[1]
     if t[0] == "Val":
         return "Val:%s" % t[1]
+    if t[0] == "MSet":
+        return "MSet[%s]" % ty_str(t[1])
+    if t[0] == "MMap":
+        return "MMap[%s,%s]" % (ty_str(t[1]), ty_str(t[2]))
     return str(t)
 
 
@@ -47,11 +51,12 @@ class KlassDecl:
     """Sidecar declaration of a class: its fields and (for containers) content sorts."""
 
     def __init__(self, name, qualname=None, fields=None, kind="object", K=None, V=None, bases=(), ghost=None,
-                 abstract=False):
+                 abstract=False, params=None):
         self.name = name
         self.qualname = qualname
-        self.fields = dict(fields or {})   # attr -> Ty
+        self.fields = dict(fields or {})   # attr -> Ty  (or raw type string containing $T for generic classes)
         self.ghost = dict(ghost or {})     # ghost attr -> Ty (spec only)
+        self.params = dict(params or {})   # generic parameters: {"T": "Order"}
         self.kind = kind                   # object | dict | list | set
         self.K = K
         self.V = V
@@ -59,12 +64,34 @@ class KlassDecl:
         self.cid = None
         self.abstract = abstract
 
-    def all_fields(self, reg):
+    def raw_fields(self, reg):
         out = {}
         for b in self.bases:
-            out.update(reg.get(b).all_fields(reg))
+            out.update(reg.get(b).raw_fields(reg))
         out.update(self.fields)
         out.update(self.ghost)
+        return out
+
+    def all_params(self, reg):
+        out = {}
+        for b in self.bases:
+            out.update(reg.get(b).all_params(reg))
+        out.update(self.params)
+        return out
+
+    def all_fields(self, reg):
+        cache = getattr(self, "_all_fields", None)
+        if cache is not None:
+            return cache
+        params = self.all_params(reg)
+        out = {}
+        for k, v in self.raw_fields(reg).items():
+            if isinstance(v, str):
+                for p, t in params.items():
+                    v = v.replace("$" + p, t)
+                v = reg.parse(v)
+            out[k] = v
+        self._all_fields = out
         return out
 
     def ancestors(self, reg):
@@ -89,13 +116,13 @@ class Registry:
         self.unbounded = set()   # Real-valued fields that may hold Decimal('Infinity')
 
     def klass(self, name, qualname=None, **kw):
-        fields = {k: self.parse(v) if isinstance(v, str) else v for k, v in (kw.pop("fields", None) or {}).items()}
-        ghost = {k: self.parse(v) if isinstance(v, str) else v for k, v in (kw.pop("ghost", None) or {}).items()}
+        fields = {k: (self.parse(v) if isinstance(v, str) and "$" not in v else v) for k, v in (kw.pop("fields", None) or {}).items()}
+        ghost = {k: (self.parse(v) if isinstance(v, str) and "$" not in v else v) for k, v in (kw.pop("ghost", None) or {}).items()}
         kd = KlassDecl(name, qualname, fields=fields, ghost=ghost, **kw)
         kd.cid = self._next_cid
         self._next_cid += 1
         self.klasses[name] = kd
-        if qualname:
+        if qualname and qualname not in self.by_qualname:
             self.by_qualname[qualname] = kd
         # containers inherit K/V
         if kd.kind == "object":
@@ -158,6 +185,11 @@ class Registry:
             return ("Opt", self.parse(s[4:-1]))
         if s.startswith("Tuple[") and s.endswith("]"):
             return ("Tuple", tuple(self.parse(a) for a in split_args(s[6:-1])))
+        if s.startswith("MSet[") and s.endswith("]"):
+            return ("MSet", self.parse(s[5:-1]))
+        if s.startswith("MMap[") and s.endswith("]"):
+            a = split_args(s[5:-1])
+            return ("MMap", self.parse(a[0]), self.parse(a[1]))
         if s.startswith("Enum:"):
             return ("Enum", s[5:])
         if s.startswith("Val:"):
